@@ -337,10 +337,18 @@ type FuzzObs struct {
 // runFuzzCase executes a history inside the current bubble and calls visit
 // for every exchange (after quiescence of that exchange).
 func runFuzzCase(c *FuzzCase, opt sim.WorldOpt, visit func(w *sim.World, in *mon.Info, invs []*mon.Invalidation)) *sim.World {
+	return runFuzzCaseWith(c, opt, nil, visit)
+}
+
+// runFuzzCaseWith additionally lets the caller prepare the world (fault plans).
+func runFuzzCaseWith(c *FuzzCase, opt sim.WorldOpt, prepare func(w *sim.World), visit func(w *sim.World, in *mon.Info, invs []*mon.Invalidation)) *sim.World {
 	counts := make([]int, len(c.Resources))
 	opt.Handler = fuzzHandler(c, counts)
 	w := sim.NewWorld(opt)
 	defer w.Close()
+	if prepare != nil {
+		prepare(w)
+	}
 	var invs []*mon.Invalidation
 	for _, st := range c.Steps {
 		if st.DtS > 0 {
